@@ -23,7 +23,9 @@ EXPLANATION = (
     "with a raw zip(coords, payloads) DFS, permutes all swizzled coordinates "
     "through guide = old_rank_ids.index(new id), rebuilds ascending through "
     "Fiber.append; Fiber.swapRanks = flatten(pair) - sort on reversed pair - "
-    "unflatten; (R5) every transform returns Tensor.fromFiber(...) (or a "
+    "unflatten; the rebuild opens a sub-fiber depending on the whole prefix; "
+    "_mergeRanksHelper pairs self.coords with a children list that has one "
+    "entry per stored payload; (R5) every transform returns Tensor.fromFiber(...) (or a "
     "deep copy).  Coordinate images, inverse round trips and merge "
     "reduction values are not decided.")
 RULE = ("one obligation per loop of fibertree/ (R1), per indexed store "
